@@ -1,5 +1,6 @@
 import AmaranthVerif.Proofs.TbExact
 import AmaranthVerif.Proofs.AssignBits5
+import AmaranthVerif.Proofs.TbWrite
 
 /-!
 # C05 — testbench reads and writes agree with what a circuit would compute
@@ -26,12 +27,28 @@ theorem tb_in_shape (ctx : Ctx) (env : Env) (hok : EnvOk ctx env) (e : Expr) (hw
 
 /-- The assignment statement in a circuit changes exactly the bits the Spec says (position `k` of the
 target ↦ bit `k` of the value; positions outside the addressed object dropped; everything else
-untouched) — for targets without aliasing under a slice or part-select (finding F9). The testbench
-half (`assignTb = assignSpec`) is compared on every run but not yet proved for all inputs. -/
+untouched) — for targets without aliasing under a slice or part-select (finding F9). -/
 theorem circuit_write_spec (ctx : Ctx) (cur : Env) (hok : EnvOk ctx cur) (hE : EnvN ctx cur) (target : Expr)
     (ht : target.twf ctx = true) (hn : target.noAlias ctx cur) (v : Int) :
     assignRtl ctx cur target v = assignSpec ctx cur target v :=
   assign_rtl_eq_spec ctx cur hok target ht hn v hE
+
+/-- `ctx.set(target, v)` changes exactly the bits the Spec says, for every well-formed target — slices,
+part-selects with any offset, concatenations, array elements, sign reinterpretations, nested in any way, a
+signal occurring several times included (the testbench path writes piece by piece; no `noAlias` hypothesis) —
+every value `v` (bits beyond the target are dropped) and every state. `assignTb` is `_eval_assign_inner`
+after the F2 repair. -/
+theorem tb_write_spec (ctx : Ctx) (cur : Env) (hok : EnvOk ctx cur) (hE : EnvN ctx cur) (target : Expr)
+    (ht : target.twf ctx = true) (v : Int) :
+    assignTb ctx cur target v = assignSpec ctx cur target v :=
+  assignTb_eq_spec ctx cur hok target ht v hE
+
+/-- A testbench write and the same assignment made by a circuit leave the same state (where the circuit side
+is defined at all: without the aliasing of F9). -/
+theorem tb_write_eq_circuit (ctx : Ctx) (cur : Env) (hok : EnvOk ctx cur) (hE : EnvN ctx cur) (target : Expr)
+    (ht : target.twf ctx = true) (hn : target.noAlias ctx cur) (v : Int) :
+    assignTb ctx cur target v = assignRtl ctx cur target v := by
+  rw [tb_write_spec ctx cur hok hE target ht v, circuit_write_spec ctx cur hok hE target ht hn v]
 
 /-- bits the Spec does not address keep their value (signals the target does not mention included) -/
 theorem write_untouched (ctx : Ctx) (env : Env) (target : Expr) (v : Int) (hE : EnvN ctx env)
@@ -48,5 +65,15 @@ def exEnv : Env := [-3, 9]
 def exExpr : Expr := .ite (.sig 0) [[.one, .any, .one]] (.op1 .inv (.sig 1)) (.ite (.sig 0) [Pat.dontCare 3] (.op1 .s (.sig 1)) Expr.nil)
 example : exExpr.wf exCtx = true := by decide
 example : evalTb exCtx exEnv exExpr = 6 := by decide
+
+/-! Non-vacuity of the write theorems: `Cat(a[1:3], b).bit_select(a.as_unsigned()[0:2], 3)` written with 2 (clears the sign bit of `a`), and the
+code as found (F2) writing outside the addressed window on `b[0:2].bit_select(1, 3)`. -/
+def wTarget : Expr := .part (.cat (.slice (.sig 0) 1 3) (.cat (.sig 1) Expr.nil)) (.slice (.op1 .u (.sig 0)) 0 2) 3 1
+example : wTarget.twf exCtx = true := by decide
+example : assignTb exCtx exEnv wTarget 2 = [1, 9] := by decide
+example : assignSpec exCtx exEnv wTarget 2 = [1, 9] := by decide
+def f2Target : Expr := .part (.slice (.sig 1) 0 2) (.const 1 ⟨1, false⟩) 3 1
+theorem f2_witness : f2Target.twf exCtx = true ∧ assignSpec exCtx exEnv f2Target 7 = [-3, 11] ∧
+    assignTb exCtx exEnv f2Target 7 = [-3, 11] ∧ assignTbUnfixed exCtx exEnv f2Target 7 = [-3, 15] := by decide
 
 end Amaranth.C05
